@@ -43,7 +43,7 @@ LineEffectiveW(line) == IF line.flavour = "direct" THEN line.w ELSE FlavourWrite
 \* k = "case": one request, obs = its repetitions (each on another instance)
 SpecAllowsCase(line) ==
     /\ ReqOK(line)
-    /\ line.flavour = "direct" \/ (line.flavour \in Flavours /\ line.cfg \in {"unset", "true", "false"} /\ line.w = LineJudgedW(line))
+    /\ line.flavour = "direct" \/ (line.flavour \in Flavours /\ line.cfg \in Sources /\ ParseOK(line.cfg) /\ line.w = LineJudgedW(line))
     /\ \A i \in DOMAIN line.obs : \E r \in ServeReq(line, LineEffectiveW(line), line.stack, line.ui) : Allowed(line.obs[i], r)
 
 \* k = "hist": reqs served one after the other by one instance; the spec is stateless, so each
@@ -66,13 +66,21 @@ SpecAllowsConc(line) ==
     /\ \A k \in DOMAIN line.eff :
          \E i \in DOMAIN line.reqs : \E r \in ServeReq(line.reqs[i], line.w, line.stack, FALSE) : r.effect = line.eff[k]
 
+\* k = "cfg": outcome of the real command's configuration parsing for (flavour, source)
+SpecAllowsCfg(line) ==
+    /\ line.flavour \in Flavours /\ line.cfg \in Sources
+    /\ line.parsed = (IF ParseOK(line.cfg) THEN "ok" ELSE "error")
+    /\ line.parsed = "ok" => line.ro = ConfiguredReadOnly(line.flavour, line.cfg)
+
 LineViol(line) ==
-    CASE line.k = "case" -> Failed(line.m, line.t, line.sps, LineJudgedW(line), line.obs)
+    CASE line.k = "cfg" -> (IF C18_Config(line.flavour, line.cfg, line.parsed, line.ro) THEN {} ELSE {"C18_Config"})
+      [] line.k = "case" -> Failed(line.m, line.t, line.sps, LineJudgedW(line), line.obs)
       [] line.k = "hist" -> FailedHist(line.w, line.reqs, line.obs, line.ref)
       [] line.k = "conc" -> FailedConc(line.w, line.reqs, line.obs, line.eff)
 
 LineAllowed(line) ==
-    CASE line.k = "case" -> SpecAllowsCase(line)
+    CASE line.k = "cfg" -> SpecAllowsCfg(line)
+      [] line.k = "case" -> SpecAllowsCase(line)
       [] line.k = "hist" -> SpecAllowsHist(line)
       [] line.k = "conc" -> SpecAllowsConc(line)
       [] OTHER -> FALSE
